@@ -57,7 +57,7 @@ class Fn:
     def only(self, typ, pred, rule: str, what: str):
         fs = self.facts(typ, pred)
         if not fs:
-            raise AnalysisError(rule, self.site, f"{what} not found in {self.qualname} (anchor vanished)")
+            raise AnalysisError(rule, self.site, f"{what} not found in {self.qualname} (anchor vanished)", missing=f"{what} in {self.qualname}")
         return fs
 
     def param(self, idx: int) -> Term:
